@@ -66,6 +66,9 @@ pub struct DevInner {
     pub unflushed: u64,
     /// the kind of the injected errors
     pub fault_kind: io::ErrorKind,
+    /// a write hit by a fault is not answered with an error but accepts 0 bytes (`Ok(0)`: a full destination;
+    /// std's `write_all` turns that into ErrorKind::WriteZero)
+    pub zero_write_on_fault: bool,
 }
 
 #[derive(Clone)]
@@ -90,6 +93,7 @@ impl Dev {
             chunking: Chunking::Full,
             unflushed: 0,
             fault_kind: io::ErrorKind::Other,
+            zero_write_on_fault: false,
         })))
     }
     pub fn quiet(data: Vec<u8>) -> Dev {
@@ -130,6 +134,9 @@ impl Dev {
         for i in 0..n {
             self.fail_at(k + i, FaultMode::OneShot);
         }
+    }
+    pub fn set_zero_write_on_fault(&self, on: bool) {
+        self.0.borrow_mut().zero_write_on_fault = on;
     }
     pub fn set_fault_kind(&self, kind: io::ErrorKind) {
         self.0.borrow_mut().fault_kind = kind;
@@ -199,7 +206,12 @@ impl DevInner {
 impl Write for Dev {
     fn write(&mut self, buf: &[u8]) -> io::Result<usize> {
         let mut d = self.0.borrow_mut();
-        d.gate("write")?;
+        if let Err(e) = d.gate("write") {
+            if d.zero_write_on_fault {
+                return Ok(0);
+            }
+            return Err(e);
+        }
         let n = d.limit(buf.len());
         let pos = d.pos as usize;
         if d.data.len() < pos + n {
